@@ -651,6 +651,14 @@ def enumerated_models() -> Iterator[Tuple[str, Any]]:
     for pos in NAME_POSITIONS:
         for n in NAME_POOL:
             yield f'name:{pos}', name_model(pos, n)
+    # odd table / enum names inside a non-default schema
+    for n in NAME_POOL:
+        yield 'name:table+schema', {'tables': [_table(n, schema='s1'), _table('t2')],
+                                    'refs': [_ref('>', ('public', 't2'), ('id',), ('s1', n), ('id',)),
+                                             _ref('<', ('s1', n), ('c2',), ('public', 't2'), ('c2',), inline=True)],
+                                    'table_groups': [{'name': 'g1', 'items': [['s1', n]]}]}
+        yield 'name:enum+schema', {'enums': [{'schema': 's1', 'name': n, 'items': [{'name': 'i1'}]}],
+                                   'tables': [_table(cols=[_col('id', {'enum': ['s1', n]}), _col('c2')])]}
     # ---- types
     for ty in TYPES:
         yield 'type', {'tables': [_table(cols=[_col('id', ty), _col('c2', ty, not_null=True, note='n')])]}
@@ -896,7 +904,7 @@ class RoundTrip(BObl):
             'db2 = PyDBML(db.dbml): content of db2 == content of db (view() without comments) and db2.dbml == db.dbml.  '
             'Failing models are shrunk; key = cause and site from the features of the minimal model.  '
             'Non-trivial = the database has at least one element; distinct = distinct recipe')
-    bound = ('33 parsed documents (comments cleared) + 311 enumerated models (complete enumeration of the one-feature domain) + random models: '
+    bound = ('33 parsed documents (comments cleared) + 331 enumerated models (complete enumeration of the one-feature domain) + random models: '
              '600 quick, 30 000 thorough (1-3 tables, 1-4 columns, 0-2 enums/indexes/groups/sticky notes, 0-3 references)')
     chunk = 8
     budget = {'quick': 27.0, 'thorough': 560.0}
